@@ -303,6 +303,59 @@ pub fn gen_valid(rng: &mut Rng) -> Vec<u8> {
         nh = nh.min(2);
     }
     for _ in 0..nh {
+        if rng.chance(1, 5) {
+            // a header real clients send, in any letter case, with a value of its grammar: numbers
+            // of any size (what fits a byte, a word, a u32, a u64 - and what does not), lists, ranges
+            let mut name = rng
+                .pick(&[
+                    "Content-Length", "Content-Length", "Transfer-Encoding", "Connection", "Keep-Alive", "Range", "Max-Forwards", "Expect", "Upgrade", "Host", "Authorization", "Cookie", "Accept-Encoding", "If-Modified-Since", "TE", "Age",
+                ])
+                .as_bytes()
+                .to_vec();
+            match rng.below(4) {
+                0 => name.make_ascii_lowercase(),
+                1 => name.make_ascii_uppercase(),
+                _ => {}
+            }
+            let num = digits(rng);
+            let num = if num.is_empty() { rng.below(100_000).to_string() } else { num };
+            let lname = name.to_ascii_lowercase();
+            let value: String = match &lname[..] {
+                b"content-length" | b"max-forwards" | b"age" => match rng.below(8) {
+                    0 => format!("-{}", num),
+                    1 => format!("+{}", num),
+                    2 => format!("{}, {}", num, num),
+                    3 => format!("0x{}", num),
+                    _ => num,
+                },
+                b"transfer-encoding" | b"te" => rng.pick(&["chunked", "gzip, chunked", "identity", "chunked;q=1.0", "trailers"]).to_string(),
+                b"connection" => rng.pick(&["keep-alive", "close", "Upgrade", "keep-alive, Upgrade", "TE, close"]).to_string(),
+                b"keep-alive" => format!("timeout={}, max={}", num, digits(rng)),
+                b"range" => match rng.below(4) {
+                    0 => format!("bytes={}-", num),
+                    1 => format!("bytes=-{}", num),
+                    2 => format!("bytes={}-{}", num, digits(rng)),
+                    _ => format!("bytes=0-0,{}-{}", num, num),
+                },
+                b"expect" => "100-continue".to_string(),
+                b"upgrade" => rng.pick(&["h2c", "websocket", "TLS/1.0, HTTP/1.1"]).to_string(),
+                b"host" => format!("example.test:{}", num),
+                b"authorization" => rng.pick(&["Basic YWRtaW46YWRtaW4=", "Basic ", "Basic !!!!", "Digest username=\"a\", nc=99999999999999999999", "Bearer x"]).to_string(),
+                b"if-modified-since" => rng.pick(&["Sat, 29 Oct 1994 19:43:31 GMT", "Thu, 01 Jan 1970 00:00:00 GMT", "Fri, 31 Dec 99999 23:59:60 GMT", "0"]).to_string(),
+                _ => format!("a={}; b={}", num, num),
+            };
+            out.extend_from_slice(&name);
+            out.push(b':');
+            for _ in 0..rng.below(3) {
+                out.push(*rng.pick(b" \t"));
+            }
+            out.extend_from_slice(value.as_bytes());
+            for _ in 0..rng.below(2) {
+                out.push(b' ');
+            }
+            nl(rng, &mut out);
+            continue;
+        }
         let name = match rng.below(6) {
             0 => b"Host".to_vec(),
             1 => b"Content-Length".to_vec(),
